@@ -107,6 +107,29 @@ def obligations(tier, seed):
         obs.append(Ob(id='C13.access.%s' % rep, prop='C13', group=grp, prelude=pre, wrappers=[win, wdf, wdi], inputs=[(ct, 'a')], body=body,
                       contract='forall a:%s: unit(a).in(unit) == a; Quantity{}.in(unit) == 0; data_in aliases the value' % ct,
                       functions_under_contract=('au::QuantityMaker::operator()', 'au::Quantity::in', 'au::Quantity::data_in')))
+    # QuantityPoint, same unit: comparisons, point - point, point +/- displacement, += -= are the raw operators on the stored values
+    for rep in ('i32', 'u16', 'i64'):
+        ct = G.ctype(rep); P = G.promoted(rep); cp = G.ctype(P)
+        pre2 = pre + '\n//--\n#include "au/quantity_point.hh"'
+        pa = 'au::make_quantity_point<%s>(a)' % U; pb = 'au::make_quantity_point<%s>(b)' % U; qb = 'au::make_quantity<%s>(b)' % U
+        ops = [('eq', '=='), ('ne', '!='), ('lt', '<'), ('le', '<='), ('gt', '>'), ('ge', '>=')]
+        ws = [Wrapper('w_pt%s_%s' % (n, rep), 'bool', [(ct, 'a'), (ct, 'b')], 'return %s %s %s;' % (pa, op, pb)) for n, op in ops]
+        wd = Wrapper('w_ptdiff_' + rep, ct, [(ct, 'a'), (ct, 'b')], 'return (%s - %s).in(%s{});' % (pa, pb, U))
+        wp = Wrapper('w_ptplus_' + rep, ct, [(ct, 'a'), (ct, 'b')], 'return (%s + %s).in(%s{});' % (pa, qb, U))
+        wm = Wrapper('w_ptminus_' + rep, ct, [(ct, 'a'), (ct, 'b')], 'return (%s - %s).in(%s{});' % (pa, qb, U))
+        wpe = Wrapper('w_ptpluseq_' + rep, ct, [(ct, 'a'), (ct, 'b')], 'auto p = %s; p += %s; return p.in(%s{});' % (pa, qb, U))
+        signedp = G.REPS[P]['signed']
+        addok = '!VF_ADD_OVF(%s, a, b)' % cp if signedp else '1'
+        subok = '!VF_SUB_OVF(%s, a, b)' % cp if signedp else '1'
+        body = '\n' + '\n'.join('  CHECK(%s(a, b) == (a %s b), "point-%s-is-raw-comparison");' % (w.name, op, n) for w, (n, op) in zip(ws, ops)) + '''
+  if (%s) { CHECK(%s(a, b) == (%s)((%s)a - (%s)b), "point-minus-point-is-raw-minus");
+            CHECK(%s(a, b) == (%s)((%s)a - (%s)b), "point-minus-displacement-is-raw-minus"); }
+  if (%s) { CHECK(%s(a, b) == (%s)((%s)a + (%s)b), "point-plus-displacement-is-raw-plus");
+            CHECK(%s(a, b) == (%s)((%s)a + (%s)b), "point-plus-assign-is-raw"); }
+''' % (subok, wd.name, ct, cp, cp, wm.name, ct, cp, cp, addok, wp.name, ct, cp, cp, wpe.name, ct, cp, cp)
+        obs.append(Ob(id='C13.point-ops.%s' % rep, prop='C13', group='C13.pt.%s' % rep, prelude=pre2, wrappers=ws + [wd, wp, wm, wpe], inputs=[(ct, 'a'), (ct, 'b')], body=body,
+                      contract='forall a,b:%s with the raw expression defined: same-unit QuantityPoint comparisons, p - p, p +/- d, p += d equal the raw operators on the stored values, converted to the point\'s rep (its Diff type is Quantity<Unit, Rep>)' % ct,
+                      functions_under_contract=('au::QuantityPoint operators (same unit)',)))
     for rep in ('f32', 'f64'):
         ct = G.ctype(rep)
         bits = 'vf_f32_bits' if rep == 'f32' else 'vf_f64_bits'
